@@ -79,6 +79,7 @@ class SimSocket(object):
     def sendall(self, data):
         if self.closed:
             raise OSError(9, 'Bad file descriptor')
+        self.sim.point('send')       # (a loop that only ever writes must run into the step budget as well)
         fault = self.sim.write_fault
         if self.broken or (fault is not None and self.nsends >= fault):
             # the peer is gone and the local stack finds out while writing (EPIPE / ECONNRESET)
@@ -210,6 +211,7 @@ def _watch_indications(sim, q):
     real_put = q.put
 
     def put(item, block=True, timeout=None):
+        sim.point('indication')
         sim.log.append(('ind', item))
         try:
             real_put(item, False)
